@@ -98,7 +98,7 @@ func zzRunChunks(rl *Shell, mode string, initial []rune, chunks [][]byte, coDeli
 // ZZ_C05_Chunks: the same bytes (concrete prefix + k symbolic bytes) delivered in one
 // read, and delivered under a symbolic chunking with symbolic co-delivery of type-ahead
 // with cursor-position reports, must give the same outcome.
-// params: mode, pre, k, n (initial buffer of n symbolic ASCII letters)
+// params: mode, pre, k, n (initial buffer of n symbolic ASCII letters), post, alpha
 func ZZ_C05_Chunks() {
 	if !zzverif.Symbolic() || zzShell2 == nil {
 		ZZSetup_TwoShells()
@@ -113,6 +113,16 @@ func ZZ_C05_Chunks() {
 		zzverif.Assume(r >= 'a' && r <= 'z')
 	}
 	all := append([]byte(pre), zzverif.Bytes("k", k)...)
+	if zzverif.Param("alpha") == "print" {
+		for _, b := range all[len(pre):] {
+			zzverif.Assume(b >= 0x20 && b < 0x7f)
+		}
+	}
+	// post: concrete keys after the symbolic ones (e.g. the keys that end the recording of a
+	// keyboard macro and call it), chunked like the rest
+	post := zzverif.Param("post")
+	nsym := len(all)
+	all = append(all, []byte(post)...)
 	// symbolic chunking
 	var chunks [][]byte
 	cur := []byte{}
@@ -151,7 +161,7 @@ func ZZ_C05_Chunks() {
 	// symbolic key (p printable, e ESC, q quoted-insert keys C-q/C-v, x C-x, c other
 	// control, h byte >= 0x80), and whether type-ahead shared a read with a cursor report
 	sfx := "/keys="
-	for _, b := range all[len(pre):] {
+	for _, b := range all[len(pre):nsym] {
 		switch {
 		case b == 0x1b:
 			sfx += "e"
